@@ -28,6 +28,8 @@ import (
 
 	sdkmath "cosmossdk.io/math"
 	storetypes "cosmossdk.io/store/types"
+	"cosmossdk.io/x/feegrant"
+	feegrantkeeper "cosmossdk.io/x/feegrant/keeper"
 	wasmvmtypes "github.com/CosmWasm/wasmvm/v2/types"
 	"github.com/cosmos/cosmos-sdk/baseapp"
 	codectypes "github.com/cosmos/cosmos-sdk/codec/types"
@@ -42,6 +44,7 @@ import (
 	tfbind "github.com/palomachain/paloma/v2/x/tokenfactory/bindings/types"
 	tftypes "github.com/palomachain/paloma/v2/x/tokenfactory/types"
 	valsettypes "github.com/palomachain/paloma/v2/x/valset/types"
+	protov2 "google.golang.org/protobuf/proto"
 )
 
 type xext struct {
@@ -243,6 +246,10 @@ func (h *hist) indexOracle(creator, denom string) {
 	if h.x != nil {
 		h.x.spellings[creator] = true
 	}
+	h.indexCheck(creator)
+}
+
+func (h *hist) indexCheck(creator string) {
 	want := append([]string{}, h.idx[creator]...)
 	sort.Strings(want)
 	got := h.e.tk.GetDenomsFromCreator(h.e.ctx, creator)
@@ -284,9 +291,17 @@ func wasmJSON(m tfbind.Message) []byte {
 	return bz
 }
 
+// bindMeta: the metadata body a contract sends.  When it names a Base of its own the body is
+// CONSISTENT with that base (display and first unit = base), so that banktypes.Metadata.Validate
+// accepts it and only the binding's "Base must be the same as denom" stands between the contract and
+// the bank metadata of another denom.
 func bindMeta(d string, tag int64, base string, bad bool) tfbind.Metadata {
-	md := tfbind.Metadata{Description: fmt.Sprint(tag), Base: base, Display: d, Name: "n", Symbol: "s",
-		DenomUnits: []tfbind.DenomUnit{{Denom: d, Exponent: 0}}}
+	u := d
+	if base != "" {
+		u = base
+	}
+	md := tfbind.Metadata{Description: fmt.Sprint(tag), Base: base, Display: u, Name: "n", Symbol: "s",
+		DenomUnits: []tfbind.DenomUnit{{Denom: u, Exponent: 0}}}
 	if bad {
 		md.Name = ""
 	}
@@ -317,6 +332,14 @@ func classifyMetaErr(err error) int {
 
 // xexec runs one extended op (anything that is not a first-round kind).
 func (h *hist) xexec(r opRec) {
+	switch r.Kind {
+	case "tx":
+		h.txexec(r)
+		return
+	case "grant", "revoke":
+		h.grantexec(r)
+		return
+	}
 	if !strings.HasPrefix(r.Kind, "raw:") && !strings.HasPrefix(r.Kind, "w") && r.Kind != "params" && r.Kind != "genesis" {
 		h.exec(r)
 		return
@@ -425,6 +448,9 @@ func (h *hist) xexec(r opRec) {
 		cs := ct.String()
 		target = "factory/" + cs + "/" + r.Denom
 		before = h.observe(target)
+		if r.HasMd {
+			defer h.baseOracle(r, ct, target, h.observe(r.MdBase))()
+		}
 		snap := h.feeSnap(cs)
 		cd := &tfbind.CreateDenom{Subdenom: r.Denom}
 		mdTerm := "NoMd"
@@ -505,6 +531,7 @@ func (h *hist) xexec(r opRec) {
 		watchD = append(watchD, target)
 	case r.Kind == "wsetmeta":
 		before = h.observe(target)
+		defer h.baseOracle(r, ct, target, h.observe(r.MdBase))()
 		md := bindMeta(r.Denom, r.Tag, r.MdBase, r.BadMeta)
 		err := dispatch(tfbind.Message{SetMetadata: &tfbind.SetMetadata{Denom: r.Denom, Metadata: md}})
 		if err != nil && code != 12 {
@@ -574,6 +601,21 @@ func (h *hist) xexec(r opRec) {
 		obs = append(obs, h.obsTerm(h.observe(d)))
 	}
 	h.steps = append(h.steps, fmt.Sprintf("XStep (%s) %d %d %s %s", term, code, nd+1, emit.List(obs), emit.List(h.extObs(r, code))))
+}
+
+// baseOracle: a set_metadata (or create with metadata) that names denom D but carries metadata.base B
+// must not touch the bank metadata of B unless the contract is the admin of B.
+func (h *hist) baseOracle(r opRec, ct sdk.AccAddress, named string, before dobs) func() {
+	return func() {
+		if r.MdBase == "" || r.MdBase == named {
+			return
+		}
+		after := h.observe(r.MdBase)
+		if after.tag != before.tag && before.adminS != ct.String() {
+			h.violate("C16:metadata-of-other-denom-written", fmt.Sprintf("%s naming %q with metadata.base %q by contract %s changed the bank metadata of %q (tag %d -> %d) whose admin is %q",
+				r.Kind, named, r.MdBase, ct.String(), r.MdBase, before.tag, after.tag, before.adminS))
+		}
+	}
 }
 
 func (h *hist) dirty(a, b dobs) bool {
@@ -774,6 +816,22 @@ func (h *hist) contractDenom(rng *rand.Rand, ci int, hostile bool) string {
 	return "factory/" + cs + "/" + subs[rng.Intn(2)]
 }
 
+// foreignBase: a denom the contract has no say over — somebody else's factory denom, a native one, or
+// a factory name nobody created.
+func (h *hist) foreignBase(rng *rand.Rand) string {
+	switch rng.Intn(4) {
+	case 0:
+		return "uusdc"
+	case 1:
+		return "factory/" + h.users[rng.Intn(len(h.users))].String() + "/never"
+	default:
+		if len(h.created) > 0 {
+			return h.created[rng.Intn(len(h.created))]
+		}
+		return "ugrain"
+	}
+}
+
 var feeMenu = [][]feeRec{
 	{},
 	{{"ugrain", "5"}},
@@ -784,7 +842,19 @@ var feeMenu = [][]feeRec{
 
 func (h *hist) nextX(rng *rand.Rand, hostileRate int) opRec {
 	hostileOp := rng.Intn(100) < hostileRate
-	k := rng.Intn(100)
+	k := rng.Intn(128)
+	if k >= 100 && !h.x.raw {
+		if k < 116 {
+			return h.nextTx(rng, hostileRate)
+		}
+		a, b := h.users[rng.Intn(len(h.users))], h.users[rng.Intn(len(h.users))]
+		kind := "grant"
+		if k >= 126 {
+			kind = "revoke"
+		}
+		return opRec{Kind: kind, Sender: a.String(), To: b.String()}
+	}
+	k = k % 100
 	ci := rng.Intn(len(h.x.contracts))
 	cs := h.x.contracts[ci].String()
 	owns := false
@@ -824,13 +894,15 @@ func (h *hist) nextX(rng *rand.Rand, hostileRate int) opRec {
 		r := opRec{Kind: "wcreate", Contract: ci, Denom: sub}
 		if rng.Intn(2) == 0 {
 			r.HasMd, r.Tag = true, int64(1+rng.Intn(1000))
-			switch rng.Intn(6) {
+			switch rng.Intn(7) {
 			case 0:
 				r.MdBase = "factory/" + cs + "/" + sub
 			case 1:
 				r.MdBase = "ugrain"
 			case 2:
 				r.BadMeta = true
+			case 3:
+				r.MdBase = h.foreignBase(rng)
 			}
 		}
 		return r
@@ -870,13 +942,15 @@ func (h *hist) nextX(rng *rand.Rand, hostileRate int) opRec {
 	case k < 82:
 		d := h.contractDenom(rng, ci, hostileOp && rng.Intn(2) == 0)
 		r := opRec{Kind: "wsetmeta", Contract: ci, Denom: d, Tag: int64(1 + rng.Intn(1000))}
-		switch rng.Intn(6) {
+		switch rng.Intn(7) {
 		case 0:
 			r.MdBase = d
 		case 1:
 			r.MdBase = "ugrain"
 		case 2:
 			r.BadMeta = true
+		case 3, 4:
+			r.MdBase = h.foreignBase(rng)
 		}
 		return r
 	case k < 92:
@@ -1014,4 +1088,388 @@ func gateValidateBasic(t testing.TB, run *emit.Run) {
 	_ = errors.Is
 	_ = sdkerrors.ErrInvalidAddress
 	_ = storetypes.StoreTypeIAVL
+}
+
+// ---- third round: whole transactions through the real decorator ----
+
+type fakeTx struct{ msgs []sdk.Msg }
+
+func (f fakeTx) GetMsgs() []sdk.Msg                    { return f.msgs }
+func (f fakeTx) GetMsgsV2() ([]protov2.Message, error) { return nil, nil }
+
+// grantexec: a fee allowance in the real x/feegrant keeper (another module: no model step; the grants
+// in force are read back from the keeper and given to the model with every transaction).
+func (h *hist) grantexec(r opRec) {
+	a, err1 := sdk.AccAddressFromBech32(r.Sender)
+	b, err2 := sdk.AccAddressFromBech32(r.To)
+	if err1 != nil || err2 != nil || a.Equals(b) {
+		return
+	}
+	var err error
+	if r.Kind == "grant" {
+		err = h.e.fg.GrantAllowance(h.e.ctx, a, b, &feegrant.BasicAllowance{})
+	} else {
+		_, err = feegrantkeeper.NewMsgServerImpl(h.e.fg).RevokeAllowance(h.e.ctx, &feegrant.MsgRevokeAllowance{Granter: r.Sender, Grantee: r.To})
+	}
+	r.Outcome = "ok"
+	if err != nil {
+		r.Outcome = "refused"
+	}
+	h.ops = append(h.ops, r)
+	h.run.Count("op", r.Kind)
+}
+
+func (h *hist) grantsTerm() string {
+	var l []string
+	_ = h.e.fg.IterateAllFeeAllowances(h.e.ctx, func(g feegrant.Grant) bool {
+		a, e1 := sdk.AccAddressFromBech32(g.Granter)
+		b, e2 := sdk.AccAddressFromBech32(g.Grantee)
+		if e1 == nil && e2 == nil {
+			l = append(l, emit.Pair(emit.ZI(h.idOf(a)), emit.ZI(h.idOf(b))))
+		}
+		return false
+	})
+	return emit.List(l)
+}
+
+type builtMsg struct {
+	r       opRec
+	msg     sdk.Msg
+	term    string
+	target  string
+	amt     *big.Int
+	call    func(sdk.Context) (string, error)
+	signers []string
+}
+
+func (h *hist) buildMsg(r opRec) (b builtMsg, ok bool) {
+	b.r, b.amt, b.target = r, parseAmt(r.Amount), r.Denom
+	b.signers = r.Signers
+	if len(b.signers) == 0 {
+		b.signers = []string{r.Sender}
+	}
+	md := valsettypes.MsgMetadata{Creator: r.Sender, Signers: b.signers}
+	coin := sdk.Coin{Denom: r.Denom, Amount: sdkmath.NewIntFromBigInt(b.amt)}
+	switch r.Kind {
+	case "create":
+		m := &tftypes.MsgCreateDenom{Subdenom: r.Denom, Metadata: md}
+		b.target = strings.Join([]string{"factory", r.Sender, r.Denom}, "/")
+		b.msg, b.term = m, fmt.Sprintf("KCreate %d %d", h.S(r.Sender), h.S(r.Denom))
+		b.call = func(c sdk.Context) (string, error) {
+			resp, err := h.e.srv.CreateDenom(c, m)
+			if err != nil {
+				return "", err
+			}
+			return resp.NewTokenDenom, nil
+		}
+	case "mint":
+		m := &tftypes.MsgMint{Amount: coin, Metadata: md}
+		b.msg, b.term = m, fmt.Sprintf("KMint %d %d %s", h.S(r.Sender), h.S(r.Denom), zx(b.amt))
+		b.call = func(c sdk.Context) (string, error) { _, err := h.e.srv.Mint(c, m); return "", err }
+	case "burn":
+		m := &tftypes.MsgBurn{Amount: coin, Metadata: md}
+		b.msg, b.term = m, fmt.Sprintf("KBurn %d %d %s", h.S(r.Sender), h.S(r.Denom), zx(b.amt))
+		b.call = func(c sdk.Context) (string, error) { _, err := h.e.srv.Burn(c, m); return "", err }
+	case "chadmin":
+		m := &tftypes.MsgChangeAdmin{Denom: r.Denom, NewAdmin: r.NewAdmin, Metadata: md}
+		b.msg, b.term = m, fmt.Sprintf("KChangeAdmin %d %d %d", h.S(r.Sender), h.S(r.Denom), h.S(r.NewAdmin))
+		b.call = func(c sdk.Context) (string, error) { _, err := h.e.srv.ChangeAdmin(c, m); return "", err }
+	case "setmeta":
+		bm := metaFor(r.Denom, r.Tag, r.BadMeta)
+		m := &tftypes.MsgSetDenomMetadata{DenomMetadata: bm, Metadata: md}
+		b.msg, b.term = m, fmt.Sprintf("KSetMeta %d %d %s %d", h.S(r.Sender), h.S(r.Denom), emit.Bool(bm.Validate() == nil), r.Tag)
+		b.call = func(c sdk.Context) (string, error) { _, err := h.e.srv.SetDenomMetadata(c, m); return "", err }
+	default:
+		return b, false
+	}
+	var sg []string
+	for _, s := range b.signers {
+		sg = append(sg, emit.ZI(int64(h.S(s))))
+	}
+	b.term = fmt.Sprintf("TM (%s) %s", b.term, emit.List(sg))
+	return b, true
+}
+
+// authorisedBy: did the creator's account sign the message, or fee-grant one of its signers?  Asked
+// of the real feegrant keeper, account by account (not of the decorator).
+func (h *hist) authorisedBy(ctx sdk.Context, creator string, signers []string) bool {
+	ca, err := sdk.AccAddressFromBech32(creator)
+	if err != nil {
+		return false
+	}
+	for _, s := range signers {
+		sa, err := sdk.AccAddressFromBech32(s)
+		if err != nil {
+			continue
+		}
+		if sa.Equals(ca) {
+			return true
+		}
+		if al, err := h.e.fg.GetAllowance(ctx, ca, sa); err == nil && al != nil {
+			return true
+		}
+	}
+	return false
+}
+
+// txexec: baseapp.runTx for a transaction of tokenfactory messages: ValidateBasic of every message,
+// the REAL VerifyAuthorisedSignatureDecorator over the whole transaction, then the msg server for
+// each message on one cache context, written back only when all succeed.
+func (h *hist) txexec(r opRec) {
+	var bs []builtMsg
+	var msgs []sdk.Msg
+	var terms []string
+	for _, m := range r.Msgs {
+		b, ok := h.buildMsg(m)
+		if !ok {
+			return
+		}
+		bs = append(bs, b)
+		msgs = append(msgs, b.msg)
+		terms = append(terms, b.term)
+	}
+	if len(bs) == 0 {
+		return
+	}
+	grants := h.grantsTerm()
+	feeDenoms := []string{}
+	for _, f := range h.fee {
+		feeDenoms = append(feeDenoms, f.Denom)
+	}
+	var targets []string
+	for _, b := range bs {
+		targets = append(targets, b.target)
+	}
+	beforeAll := map[string]dobs{}
+	for _, d := range targets {
+		beforeAll[d] = h.observe(d)
+	}
+	code := 0
+	for _, m := range msgs {
+		if vb, ok := m.(sdk.HasValidateBasic); ok && vb.ValidateBasic() != nil {
+			code = 1
+		}
+	}
+	if code == 0 {
+		func() {
+			defer func() {
+				if rec := recover(); rec != nil {
+					code = 12
+				}
+			}()
+			reached := false
+			_, err := h.e.dec.AnteHandle(h.e.ctx, fakeTx{msgs}, false, func(ctx sdk.Context, tx sdk.Tx, sim bool) (sdk.Context, error) {
+				reached = true
+				return ctx, nil
+			})
+			if err != nil || !reached {
+				code = 14
+			}
+		}()
+	}
+	type pending struct {
+		b             builtMsg
+		ret           string
+		before, after dobs
+		authorised    bool
+	}
+	var done []pending
+	if code == 0 {
+		cctx, write := h.e.ctx.CacheContext()
+		for _, b := range bs {
+			p := pending{b: b, before: h.observeAt(cctx, b.target), authorised: h.authorisedBy(cctx, b.r.Sender, b.signers)}
+			func() {
+				defer func() {
+					if rec := recover(); rec != nil {
+						code = 12
+					}
+				}()
+				ret, err := b.call(cctx)
+				h.lastErr = err
+				if c := classify(b.r.Kind, err); c != 0 {
+					code = c
+				}
+				p.ret = ret
+			}()
+			if code != 0 {
+				break
+			}
+			p.after = h.observeAt(cctx, b.target)
+			done = append(done, p)
+		}
+		if code == 0 {
+			write()
+		}
+	}
+	r.Outcome = outcomeName[code]
+	h.ops = append(h.ops, r)
+	h.run.Count("op", "tx")
+	h.run.Count("outcome", "tx:"+outcomeName[code])
+	h.run.Count("tx-shape", fmt.Sprintf("msgs=%d", len(bs)))
+	if code == 0 {
+		h.nOK++
+	} else {
+		h.nRej++
+	}
+	if code == 99 {
+		h.violate("C16:unclassified-error", fmt.Sprintf("a message of a tx returned an error the harness cannot classify: %v", h.lastErr))
+	}
+
+	// ---- direct oracle, transaction level ----
+	if code != 0 {
+		for _, d := range targets {
+			if h.dirty(beforeAll[d], h.observe(d)) {
+				h.violate("C16:refused-tx-had-effect", fmt.Sprintf("a refused transaction (%s) changed the state of %q", outcomeName[code], d))
+			}
+		}
+	} else {
+		foreign := 0
+		for i, p := range done {
+			k, cr := p.b.r.Kind, p.b.r.Sender
+			if !p.authorised {
+				h.violate("C16:tx-creator-did-not-authorise", fmt.Sprintf("message %d of a delivered transaction (%s on %q) names creator %q, who is not among its signers %v and fee-granted none of them", i, k, p.b.target, cr, p.b.signers))
+			}
+			if len(p.b.signers) > 0 && p.b.signers[0] != cr {
+				foreign++
+			}
+			switch k {
+			case "create":
+				if p.ret != "factory/"+cr+"/"+p.b.r.Denom {
+					h.violate("C16:namespace", fmt.Sprintf("create by %q sub %q in a tx returned %q", cr, p.b.r.Denom, p.ret))
+				}
+				if h.isCreat[p.ret] || p.before.tag >= 0 || p.before.admin >= 0 {
+					h.violate("C16:created-twice", fmt.Sprintf("denom %q created in a tx although it existed", p.ret))
+				}
+				h.isCreat[p.ret] = true
+				h.created = append(h.created, p.ret)
+				h.idx[cr] = append(h.idx[cr], p.ret)
+				h.x.spellings[cr] = true
+				defer h.indexCheck(cr)
+			default:
+				if p.before.admin < 0 || p.before.adminS != cr || cr == "" {
+					h.violate("C16:non-admin-acted", fmt.Sprintf("%s on %q by %q succeeded inside a tx, admin was %q", k, p.b.target, cr, p.before.adminS))
+				}
+				if !h.isCreat[p.b.target] {
+					h.violate("C16:foreign-denom-touched", fmt.Sprintf("%s on %q succeeded inside a tx but the denom was never created through the factory", k, p.b.target))
+				}
+			}
+			if k == "mint" || k == "burn" {
+				delta := new(big.Int).Set(p.b.amt)
+				if k == "burn" {
+					delta.Neg(delta)
+				}
+				h.addGhost(p.b.target, delta)
+				who := -1
+				if a, err := sdk.AccAddressFromBech32(cr); err == nil {
+					who = h.watchIndex(a)
+				}
+				if !eqBals(p.before.bals, p.after.bals, who, delta) {
+					h.violate("C16:mint-burn-touched-other-balance", fmt.Sprintf("%s of %s %q by %q inside a tx: balances %v -> %v", k, p.b.amt, p.b.target, cr, p.before.bals, p.after.bals))
+				}
+			}
+		}
+		h.run.Count("tx-delivered", fmt.Sprintf("msgs=%d signed-by-other=%d", len(done), foreign))
+		for d, g := range h.ghost {
+			if sdk.ValidateDenom(d) == nil && h.e.bk.GetSupply(h.e.ctx, d).Amount.BigInt().Cmp(g) != 0 {
+				h.violate("C16:supply-ne-mints-minus-burns", fmt.Sprintf("supply of %q is %s, successful mints - burns (+ external) is %s", d, h.e.bk.GetSupply(h.e.ctx, d).Amount, g))
+			}
+		}
+	}
+
+	// ---- model step ----
+	seen := map[string]bool{}
+	var obs []string
+	for _, d := range append(append([]string{}, targets...), feeDenoms...) {
+		if !seen[d] {
+			seen[d] = true
+			obs = append(obs, h.obsTerm(h.observe(d)))
+		}
+	}
+	var ext []string
+	for _, b := range bs {
+		if b.r.Kind == "create" {
+			ext = append(ext, h.indexTerm(b.r.Sender))
+		}
+	}
+	ext = append(ext, h.poolTerms()...)
+	h.steps = append(h.steps, fmt.Sprintf("XStep (XKTx %s %s) %d 0 %s %s", grants, emit.List(terms), code, emit.List(obs), emit.List(ext)))
+}
+
+// msgInNameOf: a plausible message with creator `who`: on a denom `who` administers if there is one,
+// else (or sometimes) a create.
+func (h *hist) msgInNameOf(rng *rand.Rand, who, signer string) opRec {
+	var own []string
+	for _, d := range h.created {
+		if h.currentAdmin(d) == who {
+			own = append(own, d)
+		}
+	}
+	if len(own) == 0 || rng.Intn(5) == 0 {
+		return opRec{Kind: "create", Sender: who, Denom: []string{"foo", "bar", "t1", "t2", "t3"}[rng.Intn(5)]}
+	}
+	d := own[rng.Intn(len(own))]
+	switch rng.Intn(5) {
+	case 0, 1:
+		return opRec{Kind: "mint", Sender: who, Denom: d, Amount: fmt.Sprint(1 + rng.Intn(500))}
+	case 2:
+		amt := big.NewInt(int64(1 + rng.Intn(50)))
+		if a, err := sdk.AccAddressFromBech32(who); err == nil {
+			if b := h.e.bk.GetBalance(h.e.ctx, a, d).Amount.BigInt(); b.Sign() > 0 && rng.Intn(4) > 0 {
+				amt = new(big.Int).Add(new(big.Int).Rand(rng, b), big.NewInt(1))
+			}
+		}
+		return opRec{Kind: "burn", Sender: who, Denom: d, Amount: amt.String()}
+	case 3:
+		na := signer
+		if rng.Intn(3) == 0 {
+			na = h.users[rng.Intn(len(h.users))].String()
+		}
+		return opRec{Kind: "chadmin", Sender: who, Denom: d, NewAdmin: na}
+	default:
+		return opRec{Kind: "setmeta", Sender: who, Denom: d, Tag: int64(1 + rng.Intn(1000))}
+	}
+}
+
+// nextTx: a transaction of 1-4 tokenfactory messages signed by ONE account M (sometimes two): M's own
+// messages and messages in the name of other accounts X — delivered only where X fee-granted M.
+func (h *hist) nextTx(rng *rand.Rand, hostileRate int) opRec {
+	m := h.users[rng.Intn(len(h.users))].String()
+	other := h.users[rng.Intn(len(h.users))].String()
+	var pairs [][2]string
+	_ = h.e.fg.IterateAllFeeAllowances(h.e.ctx, func(g feegrant.Grant) bool {
+		pairs = append(pairs, [2]string{g.Granter, g.Grantee})
+		return false
+	})
+	if len(pairs) > 0 && rng.Intn(10) < 6 {
+		p := pairs[rng.Intn(len(pairs))]
+		other, m = p[0], p[1] // X granted M
+	}
+	n := 1 + rng.Intn(4)
+	tx := opRec{Kind: "tx"}
+	for i := 0; i < n; i++ {
+		var sub opRec
+		switch c := rng.Intn(100); {
+		case c < 45 || (i == 0 && c < 70):
+			sub = h.msgInNameOf(rng, m, m) // the signer's own message (first, mostly)
+		case c < 85:
+			sub = h.msgInNameOf(rng, other, m) // in somebody else's name
+		default:
+			for {
+				sub = h.next(rng, hostileRate/4) // one hostile field in any message already sinks the whole tx
+				if !strings.HasPrefix(sub.Kind, "x") {
+					break
+				}
+			}
+		}
+		switch rng.Intn(12) {
+		case 0:
+			sub.Signers = []string{m, h.users[rng.Intn(len(h.users))].String()}
+		case 1:
+			sub.Signers = []string{sub.Sender}
+		default:
+			sub.Signers = []string{m}
+		}
+		tx.Msgs = append(tx.Msgs, sub)
+	}
+	return tx
 }
